@@ -15,6 +15,28 @@ Theorem C09_partial : forall shadow l s,
 Proof. exact published_at_idle. Qed.
 Print Assumptions C09_partial.
 
+(* the same with FORCED periodic snapshots at any idle point (an upload the loop starts without having seen a
+   local change): still everything committed is in the newest upload whenever the loop is idle *)
+Theorem C09_partial_forced : forall shadow l s,
+  reach (step_nw_f shadow) (init l) s -> at_ s = Top -> ~ (synced s < last s) ->
+  forall a, In a (apps s) -> a <= pub s.
+Proof. exact published_at_idle_f. Qed.
+Print Assumptions C09_partial_forced.
+
+(* non-vacuity: the C03-16 schedule — a forced-only pass, an application commit at send.begin, captured and published *)
+Example C09_forced_example :
+  exists s, reach (step_nw_f true) (init 3) s /\ at_ s = Top /\ apps s = [4] /\ pub s = 4 /\ cap s = 4.
+Proof.
+  eexists. split.
+  - eapply r_step. eapply r_step. eapply r_step. eapply r_step. eapply r_step. apply r_init.
+    + apply nwf_forced. reflexivity.
+    + apply nwf_nw. apply nw_app; cbn; [discriminate|tauto].
+    + apply nwf_nw. apply nw_other; [apply (s_send_txn true _ true); reflexivity|reflexivity].
+    + apply nwf_nw. apply nw_other; [eapply s_send_info; reflexivity|reflexivity].
+    + apply nwf_nw. apply nw_other; [eapply s_store_ok; reflexivity|reflexivity].
+  - cbn. repeat split; reflexivity.
+Qed.
+
 (* FULL statement is FALSE of the code inside that window (finding F8): the commit is counted as synced and
    is in no upload *)
 Theorem C09_refuted :
